@@ -1,10 +1,14 @@
+mod catalogue;
+mod catalogue_gen;
 mod common;
 mod msgs;
 mod node;
 mod partlog;
 mod partlog_gen;
+mod permgen;
 mod plan;
 mod runner;
+mod wire;
 
 use runner::*;
 use serde_json::{json, Value};
@@ -18,6 +22,8 @@ fn arg_after(args: &[String], flag: &str) -> Option<String> {
 fn dispatch_worker(wa: WorkerArgs) -> i32 {
     match wa.params.check.as_str() {
         "partlog" => worker_main(&partlog::Partlog, wa),
+        "catalogue" => worker_main(&catalogue::Catalogue, wa),
+        "wire" => worker_main(&wire::Wire, wa),
         other => {
             eprintln!("unknown check {other}");
             4
@@ -28,6 +34,8 @@ fn dispatch_worker(wa: WorkerArgs) -> i32 {
 fn dispatch_replay(check: &str, case: &Value, p: &Params) -> common::Outcome {
     match check {
         "partlog" => replay_case(&partlog::Partlog, case, p),
+        "catalogue" => replay_case(&catalogue::Catalogue, case, p),
+        "wire" => replay_case(&wire::Wire, case, p),
         other => {
             let mut o = common::Outcome::default();
             o.inconclusive = Some(format!("unknown check {other}"));
